@@ -42,7 +42,7 @@ class C09(PropBase):
             "(response kind, id class, outcome) cells + request-call outcomes visited")
     ASSUMPTIONS = ["ids need to be positive and strictly increasing, not consecutive",
                    "acceptance of a response depends on its id alone (any response kind completes a non-search operation)"]
-    RUNS = {"quick": 4000, "thorough": 120000}
+    RUNS = {"quick": 24000, "thorough": 300000}
     STEPS = {"quick": 70, "thorough": 140}
     REQUIRED_CELLS = tuple("%s/%s" % (k, c) for k in policy.RESPONSE_KINDS for c in ID_CLASSES)
     REQUIRED_REACH = ("dup_final", "response_after_done", "entry_for_nonsearch", "request_to_client", "id_after_refused_call",
